@@ -1,5 +1,6 @@
 (* C16 — NodeId value type: exact 32-byte identity, strict parse, hex forms round-trip. *)
 Require Import Enr.Bytes Enr.NodeId.
+Require Import EnrProofs.Thm_Small EnrProofs.Thm_Sites.
 Require Import EnrProofs.Thm_NodeId.
 Open Scope N_scope.
 
@@ -42,3 +43,13 @@ Theorem display_def : forall x, lenN x = 32 ->
   nodeid_display x = [48; 120] ++ hex_encode (firstn 2 x) ++ [46; 46] ++ hex_encode (skipn 30 x).
 Proof. exact Thm_NodeId.display_def. Qed.
 Print Assumptions display_def.
+
+(* "0x followed by 64 lowercase hex digits", literally; and the form determines the id *)
+Theorem nodeid_ser_shape : forall x, bytes_ok x -> lenN x = 32 ->
+  exists digits, nodeid_ser x = [48; 120] ++ digits /\ lenN digits = 64 /\
+                 Forall (fun ch => (48 <= ch <= 57) \/ (97 <= ch <= 102)) digits.
+Proof. exact Thm_Small.nodeid_ser_shape. Qed.
+Print Assumptions nodeid_ser_shape.
+Theorem nodeid_ser_inj : forall x y, bytes_ok x -> bytes_ok y -> nodeid_ser x = nodeid_ser y -> x = y.
+Proof. exact Thm_Small.nodeid_ser_inj. Qed.
+Print Assumptions nodeid_ser_inj.
